@@ -44,7 +44,18 @@ def run(ctx):
                           ctx.workdir, name='two_threads_d4', timeout=7200))
     cases = []
     # ---- page faults: every sequence of <= 3 nested records over {decoded kinds, undecoded, unrelated}, results
-    kinds = ['i', 'e', 's', 'u', 'x']
+    kinds = ['i', 'e', 's', 'u', 'x', 'n']
+    # 'n': a NEIGHBOUR - a record the code table names, that no decoder handles, of the same subclass as the nested records the
+    # composite reads (same upper 16 id bits: vm_fast_fault next to the real-fault-address records ...): unrelated to the window
+    w0 = World(random.Random(1))
+
+    def neigh(names):
+        subs = {w0.name2id[x] >> 16 for x in names if x in w0.name2id}
+        return [x for x in w0.known_names if w0.name2id[x] >> 16 in subs] or w0.near_known
+    N_VMF = neigh(World.RFA_NAMES)
+    N_LAUNCH = neigh(('DYLD_uuid_map_a', 'DYLD_uuid_shared_cache_a'))
+    N_PERF = neigh(('PERF_THD_Data', 'PERF_STK_UHdr', 'PERF_STK_UData'))
+    ctx.extra['neighbour_records'] = {'vmf': N_VMF[:8], 'launch': N_LAUNCH[:8], 'perf': N_PERF[:8]}
     n = 0
     for L in range(0, 4):
         for combo in itertools.product(kinds, repeat=L):
@@ -55,6 +66,8 @@ def run(ctx):
                 for j, c in enumerate(combo):
                     if c == 'u':
                         inner.append(w.rfau(1))
+                    elif c == 'n':
+                        inner.append(w.known(rnd.choice([0, 0, 3]), 1, name=rnd.choice(N_VMF)))
                     elif c == 'x':
                         inner += g.ord_single(1)
                         inner.append(w.rfa(2, 99, 7))            # another thread's record must not leak in
@@ -77,6 +90,8 @@ def run(ctx):
                 inner.append(w.img(1, rk, iid, sh, q=rnd.choice([0, 0, 3])))
                 if rnd.random() < 0.3:
                     inner += g.ord_single(1)
+                if rnd.random() < 0.3:
+                    inner.insert(rnd.randrange(0, len(inner) + 1), w.known(0, 1, name=rnd.choice(N_LAUNCH)))
                 if rnd.random() < 0.2:
                     inner.append(w.img(2, 9, 9))
             pre = [w.img(1, 7, 7)] if rnd.random() < 0.3 else []        # before the window: not part of it
@@ -104,6 +119,8 @@ def run(ctx):
                         inner += g.ord_single(1)
                     if n % 7 == 0 and has_hdr:
                         inner.append(w.uhdr(1, 2))         # a second header: the first one counts
+                    if n % 5 == 0:
+                        inner.insert(rnd.randrange(0, len(inner) + 1), w.known(0, 1, name=rnd.choice(N_PERF)))
                     other = rnd.getrandbits(14)
                     stream = [w.perf(1, 1, ti, us, other)] + inner + [w.perf(2, 1, ti, us)]
                     if n % 9 == 0:
